@@ -237,10 +237,20 @@ func C03(run *Run) {
 				fillV2(ev, v1, cs, ts, q)
 				rec.Add(ev)
 				run.Evals++
+				if V2RanAway.Load() {
+					break // KF-28: the abandoned call keeps spawning goroutines; judge what was recorded and finish
+				}
+			}
+			if V2RanAway.Load() {
+				run.Note("KF-28: a weighted-graph Check neither answered nor stopped when cancelled (case %d); exploration cut short there, input in replays/v2-runaway-*.txt", c)
+				break
 			}
 			if nontrivialCheck(cs, q.O, q.R) {
 				run.Nontrivial(hashOf([]any{cs.Model, cs.Tuples, q}))
 			}
+		}
+		if V2RanAway.Load() {
+			break
 		}
 		if c < 2 {
 			run.AddSample(map[string]any{"model": cs.Model.String(), "tuples": tupleStrings(cs.Tuples), "last_event": rec.Events[len(rec.Events)-1]})
